@@ -801,6 +801,20 @@ pub fn c04(ctx: &mut Ctx) -> String {
             }
         }
     }
+    // a lottery in front of a game: passes that draw the terminal outcome move nothing; the run
+    // must nevertheless use its budget ("regret shrinks as the budget grows")
+    for i in 0..(if ctx.thorough { 60 } else { 16 }) {
+        if ctx.out_of_time() {
+            break;
+        }
+        let t = lottery(&mut ctx.rng);
+        let method = if i % 2 == 0 { "S" } else { "E" };
+        let (_, params) = Params::presets()[((i / 2) % 5) as usize];
+        let seed = ctx.rng.next() >> 12;
+        let cfg = Cfg { method: method.into(), params, iters: t_hi, thr: 0.0, threads: 1, target: None, seed };
+        ctx.stat("family_lottery");
+        case_solve(ctx, &solve_case(&t, &cfg, &["sampled_rate"]));
+    }
     let med = |v: &mut Vec<f64>| -> f64 {
         v.sort_by(|a, b| a.partial_cmp(b).unwrap());
         if v.is_empty() { 0.0 } else { v[v.len() / 2] }
